@@ -289,6 +289,16 @@ def ref_apply(
         other = scen_operand(val, operand, scen)
         lhs, rhs = (other, val) if reverse else (val, other)
         errs = set()
+        mm_common = None
+        if fixed_common is not None and fixed_common[:1] == ("mm",):
+            # unresolved request: common = key columns of both operands, intersected with max, must cover min
+            mn, mx = set(fixed_common[1]), (None if fixed_common[2] is None else set(fixed_common[2]))
+            fixed_common = None
+            mm_common = {c for c in lhs.cols & rhs.cols if A.is_key(c)}
+            if mx is not None:
+                mm_common &= mx
+            if (mx is not None and not mn <= mx) or not all(A.is_key(c) for c in mn) or not mm_common >= mn:
+                errs.add("ColumnError")
         if other.eng != val.eng:
             errs.add("EngineError")
         if pred is not None and A.trivial_value(pred) is not True:
@@ -308,6 +318,8 @@ def ref_apply(
         if errs:
             raise RefReject(errs, "join")
         common = sorted(c for c in lhs.cols & rhs.cols if A.is_key(c))
+        if mm_common is not None:
+            common = sorted(mm_common)
         if fixed_common is not None:
             # join whose common columns were fixed by the caller (or resolved earlier: a PartialJoin handed back by commute())
             common = sorted(fixed_common)
